@@ -38,6 +38,10 @@ func (p *SocketAppProxyServer) register(bindAddress string) error {
 
 	p.rpcServer = rpcServer
 
+	if sl, ok := simListen(bindAddress); ok {
+		p.netListener = &sl
+		return nil
+	}
 	l, err := net.Listen("tcp", bindAddress)
 	if err != nil {
 		p.logger.WithField("error", err).Error("Failed to listen")
